@@ -13,6 +13,7 @@ import (
 	"fmt"
 	"io"
 	"os"
+	"reflect"
 
 	"github.com/gocql/gocql"
 	"gocqlverif/c04lib"
@@ -198,6 +199,178 @@ func recordedFrame(o *hlib.Out) {
 	o.Extra["recorded_frame_rows"] = len(rows)
 	o.Extra["recorded_frame_bytes"] = len(body)
 }
+
+// typedRows: rows whose cells are well-formed values of their column types, several rows with blobs (and
+// collections of blobs) of decreasing and mixed lengths, consumed through SliceMap, through MapScan and through
+// Scan into fresh canonical destinations.  Every value handed to the caller is retained and compared with the
+// frame only after iteration has finished: what the caller was given must not change afterwards.
+func typedRows(o *hlib.Out, g *c04lib.Gen) {
+	r := o.Rng
+	nat := func(id int) *c04lib.SType { return &c04lib.SType{Kind: c04lib.KNative, ID: id} }
+	menu := func() *c04lib.SType {
+		switch r.Intn(12) {
+		case 0, 1, 2:
+			return nat(3) // blob
+		case 3:
+			return nat(13)
+		case 4:
+			return nat(int(r.Pick(2, 4, 7, 8, 9, 11, 12, 14, 16, 19, 20)))
+		case 5:
+			return &c04lib.SType{Kind: c04lib.KList, Elems: []*c04lib.SType{nat(3)}}
+		case 6:
+			return &c04lib.SType{Kind: c04lib.KSet, Elems: []*c04lib.SType{nat(int(r.Pick(9, 13, 3)))}}
+		case 7:
+			return &c04lib.SType{Kind: c04lib.KMap, Elems: []*c04lib.SType{nat(int(r.Pick(13, 9, 12))), nat(int(r.Pick(3, 13, 9)))}}
+		case 8:
+			return &c04lib.SType{Kind: c04lib.KTuple, Elems: []*c04lib.SType{nat(3), nat(int(r.Pick(9, 13)))}}
+		case 9:
+			return &c04lib.SType{Kind: c04lib.KUDT, KS: "k", Name: "u", Elems: []*c04lib.SType{nat(3), nat(9)}, FieldNames: []string{"a", "b"}}
+		case 10:
+			return &c04lib.SType{Kind: c04lib.KList, Elems: []*c04lib.SType{{Kind: c04lib.KList, Elems: []*c04lib.SType{nat(3)}}}}
+		}
+		return nat(int(r.Pick(1, 10, 13)))
+	}
+	blobLens := [][]int{{11, 3, 2}, {8, 8, 1, 5}, {5, 0, 4, -1, 3}, {1, 2, 3}, {16, 15, 14, 13}, {4, -1, 4}}
+	for it := 0; it < 14*o.Scale; it++ {
+		v := int(r.Pick(2, 3, 4, 4, 5))
+		ncols := 1 + r.Intn(4)
+		m := c04lib.SMeta{Count: ncols, Global: r.Bool(), GKS: "ks", GTab: "tb"}
+		for i := 0; i < ncols; i++ {
+			t := menu()
+			if i == 0 {
+				t = nat(3)
+			}
+			c := c04lib.SCol{Name: fmt.Sprintf("c%d", i), Type: t}
+			if !m.Global {
+				c.KS, c.Table = "ks", "tb"
+			}
+			m.Cols = append(m.Cols, c)
+		}
+		pattern := blobLens[r.Intn(len(blobLens))]
+		nrows := len(pattern)
+		rows := make([][]c04lib.SCell, nrows)
+		opt := func(b []byte) c04lib.OptBytes {
+			if b == nil {
+				return c04lib.OptBytes{Null: true}
+			}
+			return c04lib.OptBytes{Val: b}
+		}
+		for ri := range rows {
+			for _, c := range m.Cols {
+				switch {
+				case c.Type.Kind == c04lib.KNative && c.Type.ID == 3:
+					n := pattern[(ri+len(c.Name))%len(pattern)]
+					if c.Name == "c0" {
+						n = pattern[ri]
+					}
+					if n < 0 {
+						rows[ri] = append(rows[ri], c04lib.SCell{Val: c04lib.OptBytes{Null: true}})
+					} else {
+						rows[ri] = append(rows[ri], c04lib.SCell{Val: c04lib.OptBytes{Val: r.Bytes(n)}})
+					}
+				case c.Type.Kind == c04lib.KTuple:
+					cell := c04lib.SCell{IsTuple: true}
+					if r.Chance(10) {
+						cell.Null = true
+					} else {
+						for _, e := range c.Type.Elems {
+							cell.Comps = append(cell.Comps, opt(g.Value(v, e)))
+						}
+					}
+					rows[ri] = append(rows[ri], cell)
+				default:
+					rows[ri] = append(rows[ri], c04lib.SCell{Val: opt(g.Value(v, c.Type))})
+				}
+			}
+		}
+		resp := &c04lib.Response{Op: c04lib.OpResult, Result: c04lib.SResult{Kind: c04lib.RRows, Meta: m, Rows: rows}}
+		body := resp.EncodeBody(v)
+		parse := func() c04lib.Outcome { return c04lib.Parse(v, 0x80|v, 0, c04lib.OpResult, body) }
+		first := parse()
+		if first.Class != "ok" || first.Frame.Kind != "rows" {
+			o.Violate(-1, "typed-rows-parse", "", "a well-formed rows frame was not parsed: "+first.Class+" "+first.ErrMsg, hlib.ZList(body))
+			continue
+		}
+		cols := first.Frame.Meta.Columns
+		want, problem := c04lib.ExpectedMaps(cols, &m, rows)
+		if problem != "" {
+			if len(problem) > 5 && problem[:5] == "VALUE" {
+				o.Violate(-1, "value-decode", "", problem, hlib.ZList(body))
+			} else {
+				o.Count("typed-rows-skipped")
+			}
+			continue
+		}
+		o.Count("typed-rows")
+		report := func(kind, diff string) {
+			if diff != "" {
+				o.Violate(-1, kind, "", diff+fmt.Sprintf(" (protocol %d, %d rows, columns %s)", v, nrows, m.Coq()), hlib.ZList(body))
+			}
+		}
+		guard := func(kind string, f func()) {
+			defer func() {
+				if p := recover(); p != nil {
+					o.Violate(-1, kind, "", fmt.Sprintf("panic on a well-formed rows frame: %v", p), hlib.ZList(body))
+				}
+			}()
+			f()
+		}
+		// SliceMap: the complete result
+		guard("slicemap-values", func() {
+			p := parse()
+			got, err := p.Framer.Iter(p.Frame).SliceMap()
+			if err != nil {
+				report("slicemap-values", "SliceMap returned an error: "+err.Error())
+				return
+			}
+			report("slicemap-values", c04lib.DiffMaps(got, want))
+		})
+		// MapScan: a new map per row, all of them kept until the end
+		guard("mapscan-values", func() {
+			p := parse()
+			iter := p.Framer.Iter(p.Frame)
+			var got []map[string]interface{}
+			for {
+				mm := map[string]interface{}{}
+				if !iter.MapScan(mm) {
+					break
+				}
+				got = append(got, mm)
+			}
+			report("mapscan-values", c04lib.DiffMaps(got, want))
+		})
+		// Scan into fresh canonical destinations, dereferenced only after the last row
+		guard("scan-values", func() {
+			p := parse()
+			iter := p.Framer.Iter(p.Frame)
+			var names [][]string
+			var dests [][]interface{}
+			for {
+				rd, err := iter.RowData()
+				if err != nil {
+					report("scan-values", "RowData: "+err.Error())
+					return
+				}
+				if !iter.Scan(rd.Values...) {
+					break
+				}
+				names = append(names, rd.Columns)
+				dests = append(dests, rd.Values)
+			}
+			var got []map[string]interface{}
+			for i := range dests {
+				mm := map[string]interface{}{}
+				for j, d := range dests[i] {
+					mm[names[i][j]] = reflectIndirect(d)
+				}
+				got = append(got, mm)
+			}
+			report("scan-values", c04lib.DiffMaps(got, want))
+		})
+	}
+}
+
+func reflectIndirect(p interface{}) interface{} { return reflect.Indirect(reflect.ValueOf(p)).Interface() }
 
 func min(a, b int) int {
 	if a < b {
@@ -450,6 +623,9 @@ func main() {
 	}
 
 	recordedFrame(o)
+	if o.Only < 0 {
+		typedRows(o, g)
+	}
 
 	o.Finish("From GocqlV Require Import Lib.Base C04.Model C04.Spec C04.Corr.", "C04.Corr.case", "C04.Corr.run")
 }
